@@ -437,6 +437,11 @@ func runStalled(kind int) (*stallObs, string) {
 	if kind == 19 || kind == 20 {
 		return runWillRetained(kind - 16)
 	}
+	if kind == 21 {
+		// a retained Will with a Will Delay Interval, published by the delay timer, then the broker is restarted: it is a
+		// retained message like any other (C16)
+		return runWillRetained(5)
+	}
 	if kind == 17 || kind == 18 {
 		return runWillAfterInvalidDisconnect(kind - 16)
 	}
@@ -733,7 +738,7 @@ func runWillRetained(path int) (*stallObs, string) {
 	will := mqttp.NewPublish(ver)
 	_ = will.Set("will/r", []byte{7}, 1, true, false)
 	o := ConnectOpts{ID: "wr", Ver: ver, Clean: true, Will: will}
-	if path == 1 || path == 2 {
+	if path == 1 || path == 2 || path == 5 {
 		_ = will.PropertySet(mqttp.PropertyWillDelayInterval, uint32(1))
 		exp := uint32(30)
 		o.Expiry = &exp
